@@ -6,11 +6,18 @@
 //!   3 <path> <name>        sim.get(path).child(name)
 //!   4 <str>                ObjectPath::from(str) and its parent()
 //!   5 <str> <name>         ObjectPath::from(str).appended(name)
+//!   6 <path> L (k <name>)^(L%4) <stage list>
+//!                          sim.node(path, Ndl::new(registry, def)): an NDL described block whose module
+//!                          type of level i has the single submodule entry `name` (k%5 = 0) or `name[k%5]`
+//!                          of the type of level i+1; the registry's fallback hands the i-th created
+//!                          module the i-th stage count of the list (1 when exhausted)
 //! Output per op: see coq/Tree/Model.v `step`; then, after running the simulation with
 //! no events: `6 n <as_str>*n` (Sim::nodes()), `7 k (ord stage pos parent)*k` (at_sim_start
 //! calls in call order), `8 k (ord pos)*k` (at_sim_end calls), `10 r` (run() Ok = 0).
+use des::net::ndl::{Def, FieldDef, Kardinality, ModuleDef, Ndl, Registry, TypClause};
 use des::prelude::*;
 use implrun::Cur;
+use std::cell::Cell;
 use std::panic::{catch_unwind, AssertUnwindSafe};
 use std::sync::{Arc, Mutex};
 
@@ -155,6 +162,71 @@ fn run_line(nums: &[u64]) -> Vec<u64> {
                 lp(&mut out, a.name());
                 out.push((a == ObjectPath::from(a.as_str())) as u64);
                 out.push((a.parent().as_ref() == Some(&p)) as u64);
+            }
+            Some(6) => {
+                c.next();
+                let path = take_str(&mut c);
+                let nl = (c.next() % 4) as usize;
+                let mut levels = Vec::new();
+                for _ in 0..nl {
+                    if c.done() {
+                        break;
+                    }
+                    let k = (c.next() % 5) as usize;
+                    let name = take_str(&mut c);
+                    levels.push((k, name));
+                }
+                let stages: Vec<usize> = c.take_lp().into_iter().map(|x| (x % 8) as usize).collect();
+                // module type T<i> of level i; the last type has no submodules
+                let mut def = Def { entry: "T0".to_string(), ..Default::default() };
+                for i in 0..=levels.len() {
+                    let mut m = ModuleDef { inherit: None, gates: vec![], submodules: Default::default(), connections: vec![] };
+                    if let Some((k, name)) = levels.get(i) {
+                        let kardinality = if *k == 0 { Kardinality::Atom } else { Kardinality::Cluster(*k) };
+                        m.submodules.insert(
+                            FieldDef { ident: name.clone(), kardinality },
+                            TypClause { ident: format!("T{}", i + 1), args: vec![] },
+                        );
+                    }
+                    def.modules.insert(TypClause { ident: format!("T{i}"), args: vec![] }, m);
+                }
+                let created = Cell::new(0usize);
+                let r = {
+                    let (log, created, stages) = (log.clone(), &created, &stages);
+                    let base = next_ord;
+                    let mut registry = Registry::new().with_fallback(move || {
+                        let k = created.get();
+                        created.set(k + 1);
+                        Node { ord: base + k as u64, stages: stages.get(k).copied().unwrap_or(1), log: log.clone() }
+                    });
+                    catch_unwind(AssertUnwindSafe(|| match Ndl::new(&mut registry, &def) {
+                        Ok(block) => match sim.node(path.as_str(), block) {
+                            Ok(_) => 0u64,
+                            Err(_) => 97,
+                        },
+                        Err(_) => 98,
+                    }))
+                };
+                next_ord += created.get() as u64;
+                match r {
+                    Ok(0) => out.push(1),
+                    Ok(code) => out.extend([9, code]),
+                    Err(e) => {
+                        let msg = e
+                            .downcast_ref::<String>()
+                            .cloned()
+                            .or_else(|| e.downcast_ref::<&str>().map(|s| s.to_string()))
+                            .unwrap_or_default();
+                        let site = if msg.ends_with(", already exists") {
+                            4
+                        } else if msg.contains("parent missing in NDL build") {
+                            5
+                        } else {
+                            99
+                        };
+                        out.extend([9, site]);
+                    }
+                }
             }
             _ => break,
         }
